@@ -606,7 +606,8 @@ def run(p, led, tier):
     twt = p.find_method(nuc, "transcribe_with_tools")
     if twt is None:
         raise AnchorError("Nucleus.transcribe_with_tools not found")
-    _tool_loop_table(p, led, nuc, twt)
+    tool_ok = _tool_loop_table(p, led, nuc, twt)
+    tled = led.corroborating(tool_ok, "the interpreted tool-loop table (limits 0–4, 9, 30)")
     # structural bound for *every* value of the limit, on whichever function below transcribe_with_tools hosts the provider round
     host = None
     for g in [twt] + [g for g in res.reachable_from(twt) if g.module.rel == twt.module.rel and g is not twt]:
@@ -620,8 +621,8 @@ def run(p, led, tier):
         in_loop = any(isinstance(lp, (ast.While, ast.For)) and any(isinstance(c, ast.Call) and isinstance(c.func, ast.Attribute) and c.func.attr == "complete_with_tools" for c in ast.walk(lp))
                       for lp in walk_no_nested(host.node))
         if in_loop:
-            check_bounded_calls(led, "C18-R3", host, ncfg, lambda c: isinstance(c.func, ast.Attribute) and c.func.attr == "complete_with_tools", "provider tool round", {"max_iterations": 1},
-                                list(nuc.methods.values()) + [g for g in p.all_funcs if g.module.rel == host.module.rel and g.cls is None])
+            tled.run_section(("C18-R3",), lambda: check_bounded_calls(tled, "C18-R3", host, ncfg, lambda c: isinstance(c.func, ast.Attribute) and c.func.attr == "complete_with_tools", "provider tool round", {"max_iterations": 1},
+                                                                       list(nuc.methods.values()) + [g for g in p.all_funcs if g.module.rel == host.module.rel and g.cls is None]), "operon_ai/organelles/nucleus.py")
         else:
             led.info(f"{host.qual} calls the provider outside a loop construct (recursion / helper): bound decided for limits 0–4 by the interpreted table only")
 
@@ -632,17 +633,18 @@ def _tool_loop_table(p, led, nuc, twt):
     from ..fdai import Interp, Obj, Unknown, PyRaise, ExcVal, explore, Imprecise, stub
     probs, npaths = [], 0
     for limit in (0, 1, 2, 3, 4, 9, 30):
-        for behaviour in (("forever", "stops") if limit <= 4 else ("forever",)) + (("raises",) if limit else ()):
+        for behaviour in (("forever", "stops") if limit <= 4 else ("forever",)) + (("raises",) if limit else ()) + (("forever, a tool re-enters the loop",) if 2 <= limit <= 3 else ()):
             def go(o, _limit=limit, _beh=behaviour):
                 it = Interp(p, o)
                 log = []
 
                 @stub
                 def cwt(interp, args, kwargs):
-                    log.append("tools")
-                    n_ = log.count("tools")
+                    n_ = log.count("tools") + log.count("failed-call") + 1
                     if _beh == "raises" and n_ == 1:
+                        log.append("failed-call")      # a call the provider failed: no round was answered (a retry of it is not a further round)
                         raise PyRaise(ExcVal("RuntimeError", ("provider down",)))
+                    log.append("tools")
                     if _beh == "stops" and interp.o.choose(2, f"round {n_}: provider stops / asks for tools again") == 0:
                         return (Unknown(f"answer{n_}"), [])
                     return (Unknown(f"partial{n_}"), [Obj(None, {"name": "t", "id": f"c{n_}", "arguments": {}}, tag="toolcall")])
@@ -661,9 +663,21 @@ def _tool_loop_table(p, led, nuc, twt):
                 def schemas(interp, args, kwargs):
                     return [Unknown("schema")]
 
+                nested = {"depth": 0}
+
                 @stub
                 def run_tool(interp, args, kwargs):
                     log.append("exec")
+                    if "re-enters" in _beh and nested["depth"] == 0:
+                        # every tool call of the outer conversation delegates a sub-question to the same nucleus, with a budget
+                        # of one round of its own
+                        nested["depth"] += 1
+                        try:
+                            interp.call_fi(twt, [n, "sub-question", mito, None, 1], {})
+                        except PyRaise:
+                            pass
+                        finally:
+                            nested["depth"] -= 1
                     return Obj(None, {"call_id": "c", "output": "o", "success": True, "error": None}, tag="toolresult")
                 mito.fields.update(export_tool_schemas=schemas, execute_tool_call=run_tool)
                 try:
@@ -682,11 +696,18 @@ def _tool_loop_table(p, led, nuc, twt):
             for r in paths:
                 tag = f"max_iterations={limit}, provider {behaviour}"
                 rounds, plain = r["log"].count("tools"), r["log"].count("plain")
-                if rounds > limit:
+                budget = 2 * limit if "re-enters" in behaviour else limit        # the nested conversation has a budget of its own
+                if rounds > budget:
                     probs.append(f"{tag}: {rounds} tool rounds")
+                if r["log"].count("failed-call") > 1:
+                    probs.append(f"{tag}: the failing provider call was issued {r['log'].count('failed-call')} times")
                 if "raised" in r:
                     if behaviour != "raises":
                         probs.append(f"{tag}: raises {r['raised']}")
+                    continue
+                if "re-enters" in behaviour:
+                    if plain != limit + 1:
+                        probs.append(f"{tag}: {plain} plain completion(s) (one per nested conversation and one for the outer expected: {limit + 1})")
                     continue
                 if behaviour == "forever" and plain != 1:
                     probs.append(f"{tag}: {plain} plain completion(s) after the exhausted loop (exactly one expected)")
@@ -698,6 +719,7 @@ def _tool_loop_table(p, led, nuc, twt):
     else:
         led.ok("C18-R3", key, where(twt, twt.node), f"{npaths} path(s): tool rounds never exceed the limit; a provider that asks for tools forever gets exactly one plain completion at the end")
     led.ok("C18-R3", "Nucleus.transcribe_with_tools ▸ one plain completion after the loop", where(twt, twt.node), "row family of the table above", nontrivial=False) if not probs else None
+    return not probs
 
 
 def _targets_name(n, name):
